@@ -573,17 +573,17 @@ func (v *VMValue) toStringRaw(ri *recursionInfo) string {
 		}
 		ri.exists[v.Value] = true
 
-		s := "["
+		var sb strings.Builder
+		sb.WriteString("[")
 		arr, _ := v.ReadArray()
 		for index, i := range arr.List {
-			x := i.toReprRaw(ri)
-			s += x
+			sb.WriteString(i.toReprRaw(ri))
 			if index != len(arr.List)-1 {
-				s += ", "
+				sb.WriteString(", ")
 			}
 		}
-		s += "]"
-		return s
+		sb.WriteString("]")
+		return sb.String()
 	case VMTypeComputedValue:
 		cd, _ := v.ReadComputed()
 		return "&(" + cd.Expr + ")"
